@@ -220,7 +220,7 @@ def run_case(case):
     STATE['jacobian'] = True
     out = []
     wa = bool(rng.integers(0, 2))
-    em = InsErrorModel(wa)
+    em = InsErrorModel(forms.flag(rng, wa))          # bool or numpy.bool_
     try:
         if cls in ('Position', 'NedVelocity', 'BodyVelocity'):
             with_rates = bool(rng.integers(0, 2))
